@@ -115,7 +115,13 @@ func (h *H) phaseBinary() {
 		lines[i] = "utf8 " + hx(c)
 	}
 	if h.drv != nil {
-		outs, err := h.drv.AskAll(lines)
+		var outs []string
+		var err error
+		drv := h.drv
+		if !lib.WithDeadline(askDeadline, func() { outs, err = drv.AskAll(lines) }) {
+			err = fmt.Errorf("no answer within %s", askDeadline)
+			h.hung = true
+		}
 		if err != nil {
 			res.Fatalf("driver: %v", err)
 			h.drv = nil
